@@ -520,7 +520,9 @@ fn gen_frame(r: &mut Rng) -> String {
     match r.below(8) {
         0 | 1 => {
             let ct = *r.pick(&['t', 'f', 'p', 'x']);
-            mk(&sc, "I0".into(), "frame-ctype-other", "POST", EP_PATHS[b.ep], ct, LenMode::Exact, body)
+            // refused by the HTTP layer before anything is decoded: 415 with the JSON error 'invalid request format'
+            let label = if fits { "E415:6".to_string() } else { "I0".to_string() };
+            mk(&sc, label, "frame-ctype-other", "POST", EP_PATHS[b.ep], ct, LenMode::Exact, body)
         }
         2 => {
             let ct = *r.pick(&['J', 'j']);
